@@ -129,4 +129,3 @@ func displayName(key string) string {
 	return key
 }
 
-func cmdCheck(args []string) int { return 2 }
